@@ -180,6 +180,12 @@ def run(ctx):
     ctx.rule("C09-denominator-sign", "ratios are built with positive denominators (consumers are sign-naive)")
     range_and_sign(ctx, fb)
 
+    # ------------------------------------------------------------------ C09-folds
+    ctx.rule("C09-folds", "the n-ary + - * / are left folds of the binary operation in argument order ((- a) = 0 - a, (/ a) = 1 / a): "
+                          "the tree of binary operations on 0..4 opaque numbers")
+    from . import numtables as _nt
+    _nt.rule_folds(ctx, "C09-folds")
+
     # ------------------------------------------------------------------ C09-rounding
     ctx.rule("C09-rounding", "floor / ceiling of an exact ratio a/b (b > 0): symbolic evaluation of the ratio arm, every path's result "
                              "formula checked against the greatest integer not above / least integer not below a/b on all sign and "
